@@ -18,7 +18,8 @@ MANIFEST = dict(
           "(TSan sample), glibc rwlock fairness; cursor set/del are checked on thread-private databases only"),
     technique="Lean 4 proof over a lock-protocol model + recorded lock traces accepted by the compiled model + linearizability oracle + TSan")
 MODULE = "IwModel.Props.C07"
-THEOREMS = []
+THEOREMS = ["IwModel.C07.order_no_deadlock", "IwModel.C07.exclusive_excludes", "IwModel.C07.session_ordered",
+            "IwModel.C07.accepted_calls_no_deadlock", "IwModel.C07.self_deadlock_witness"]
 
 EXCL_OPS = ("sync", "cp", "dbnew", "dbdel", "dbget", "bkp")
 
